@@ -13,14 +13,14 @@ use serde_json::json;
 pub const SPEC: PropSpec = PropSpec {
 	id: "C08",
 	level: "exploration",
-	rule: "per case: schema AST (incl. equal short names in different namespaces, recursion, sharing, logical types) -> 3 random JSON spellings + the builder API; for each: canonical form text (hook H1) == reference canonical form of the AST, SchemaMut::canonical_form_rabin_fingerprint == Schema::rabin_fingerprint == little-endian bitwise CRC-64-AVRO of it, identical across spellings; one canonical-form-changing edit (rename, swap fields, change symbol/size, reorder union, edit inside the second of two same-short-name types) must change the fingerprint. once per run: the table-driven step (hook H2) against the bitwise definition on the full 2^16 x 2^8 subspace, the 64+8 unit vectors, GF(2)-linearity of the 256-entry table over all 256x256 index pairs, 2x10^6 random (state, byte) pairs and the affine identity on random triples. distinct by hash(canonical form)",
+	rule: "per case: schema AST (incl. equal short names in different namespaces, recursion, sharing, logical types) -> 3 random JSON spellings + the builder API; for each: canonical form text (hook H1) == reference canonical form of the AST, SchemaMut::canonical_form_rabin_fingerprint == Schema::rabin_fingerprint == little-endian bitwise CRC-64-AVRO of it, identical across spellings; one canonical-form-changing edit (rename, swap fields, change symbol/size, reorder union, edit inside the second of two same-short-name types) must change the fingerprint, also when applied in place through nodes_mut() to an object whose fingerprint was already queried 0-2 times (then re-queried and frozen; a clone taken before the edit keeps the old one). once per run: the table-driven step (hook H2) against the bitwise definition on the full 2^16 x 2^8 subspace, the 64+8 unit vectors, GF(2)-linearity of the 256-entry table over all 256x256 index pairs, 2x10^6 random (state, byte) pairs and the affine identity on random triples. distinct by hash(canonical form)",
 	assumptions: &[
 		"the step is (s >> 8) ^ T[(s ^ b) & 0xFF]; agreement on a GF(2) basis plus table linearity extends to all 2^64 x 256 pairs by an affine-map argument, not by observation (exhaustive: false)",
 		"a CRC collision between distinct canonical forms is counted as inconclusive",
 	],
 	cases: (50_000_000, 4_000_000_000),
 	secs: (30, 600),
-	required: &["fingerprints_ok", "spellings_agree", "edits_change_fingerprint", "step_pairs_checked"],
+	required: &["fingerprints_ok", "spellings_agree", "edits_change_fingerprint", "in_place_edit_histories_ok", "step_pairs_checked"],
 	run_case,
 	once: Some(once),
 	panics_are_violations: true,
@@ -218,6 +218,37 @@ pub fn run_case(ctx: &mut Ctx, case_seed: u64) {
 					}
 					ctx.count("edits_change_fingerprint");
 					ctx.count(&format!("edit:{label}"));
+					// the same edit as a history on ONE object: query, edit in place through nodes_mut(), query again, freeze.
+					// Whatever the object remembered from the first query must not survive the edit.
+					let mut live: SchemaMut = match rng.below(2) {
+						0 => rs.to_schema_mut(),
+						_ => match rs.spell(Some(&mut rng)).compact().parse() {
+							Ok(s) => s,
+							Err(_) => return,
+						},
+					};
+					let queries_before = rng.below(3);
+					for _ in 0..queries_before {
+						let _ = live.canonical_form_rabin_fingerprint();
+					}
+					let copy_before_edit = live.clone();
+					*live.nodes_mut() = sm_b.nodes().to_vec();
+					let want_b = crc64_avro(pcf_b.as_bytes()).to_le_bytes();
+					let after = live.canonical_form_rabin_fingerprint();
+					let frozen = live.freeze().map(|s| *s.rabin_fingerprint());
+					let copy_fp = copy_before_edit.canonical_form_rabin_fingerprint();
+					let ok_after = matches!(&after, Ok(f) if *f == want_b);
+					let ok_frozen = matches!(&frozen, Ok(f) if *f == want_b);
+					let ok_copy = matches!(&copy_fp, Ok(f) if *f == want_fp);
+					if !(ok_after && ok_frozen && ok_copy) {
+						ctx.violation(
+							format!("fingerprint-stale-after-in-place-edit queries_before={} after_ok={ok_after} frozen_ok={ok_frozen} untouched_copy_ok={ok_copy}", queries_before.min(1)),
+							case_seed,
+							json!({"schema_a": rs.spell(None).compact(), "schema_b": rs_b.spell(None).compact(), "edit": label, "want_after_le": hex(&want_b), "got_after": format!("{after:?}"), "got_frozen": format!("{:?}", frozen.as_ref().map_err(|e| e.to_string())), "copy": format!("{copy_fp:?}")}),
+						);
+						return;
+					}
+					ctx.count("in_place_edit_histories_ok");
 				}
 				Err(_) => {}
 			}
